@@ -171,6 +171,13 @@ func build(ops []Op) (*built, error) {
 			layerOf = append(layerOf, -1)
 			continue
 		}
+		if o.Kind == "phantom" {
+			// a history entry that is NOT flagged empty although no layer belongs to it (some build
+			// tools write such histories): the history is inconsistent with the layer list
+			hist = append(hist, imgkit.Hist{CreatedBy: fmt.Sprintf("cmd-%d", i)})
+			layerOf = append(layerOf, -2)
+			continue
+		}
 		hist = append(hist, imgkit.Hist{CreatedBy: fmt.Sprintf("cmd-%d", i)})
 		layerOf = append(layerOf, len(tars))
 		tars = append(tars, imgkit.TarBytes(entriesFor(o, i)))
@@ -402,7 +409,12 @@ func main() {
 		if strings.Contains(doc.Replay.Phase, "two-extractors") {
 			exs = two
 		}
-		k, _, d, _ := verdict(doc.Replay.History, exs, []string{"etc/f.list", "etc/g.list"})
+		var k, d string
+		if doc.Replay.Phase == "inconsistent-history" {
+			k, d, _ = phantomVerdict(doc.Replay.History, exs, []string{"etc/f.list"})
+		} else {
+			k, _, d, _ = verdict(doc.Replay.History, exs, []string{"etc/f.list", "etc/g.list"})
+		}
 		fmt.Printf("replay %s: key=%q %s\n", histStr(doc.Replay.History), k, d)
 		os.RemoveAll(base)
 		if k != "" {
@@ -434,8 +446,138 @@ func main() {
 			allComplete = false
 		}
 	}
+	if !r.Expired() {
+		if !phantomPhase(r, ev.Pick(r, 3, 4), one) {
+			allComplete = false
+		}
+	}
 	os.RemoveAll(base)
 	r.Set("depth_completed_per_phase", bounds)
 	r.Assume("the oracle extracts each file independently from the implementation's own image-up-to-layer views (the property is stated over them); the views themselves are C04's subject")
-	r.Finish("BFS over layer histories: per layer one of {touch unrelated file, empty history entry, write file with each subset of the package pool, delete file (whiteout), delete parent directory}; phases: one file x 2 packages, one file x 2 versions of one package, two files (same package in both = same PURL at two locations), one file read by two extractors, (thorough) one file x 3 packages; every history rebuilt as a real image, scanned by ScanContainer and compared with brute-force attribution; states = distinct (views, diffs) keys, transitions = histories executed, non-trivial = states of depth >=3 reporting >=1 package", allComplete)
+	r.Finish("BFS over layer histories: per layer one of {touch unrelated file, empty history entry, write file with each subset of the package pool, delete file (whiteout), delete parent directory}; phases: one file x 2 packages, one file x 2 versions of one package, two files (same package in both = same PURL at two locations), one file read by two extractors, (thorough) one file x 3 packages; plus every one-file history of depth <=3/4 with one surplus history entry that is not flagged empty (inconsistent history: numbering and presence of the command are don't-care, but diff id, index in the implementation's own chain and the identity of a reported command are checked); every history rebuilt as a real image, scanned by ScanContainer and compared with brute-force attribution; states = distinct (views, diffs) keys, transitions = histories executed, non-trivial = states of depth >=3 reporting >=1 package", allComplete)
+}
+
+// phantomVerdict: histories that are inconsistent with the layer list (one surplus entry that is not
+// flagged empty). How chain layers are numbered then is a don't-care, and so is whether a command is
+// reported at all; but the diff ID must be the introducing layer's, the index must be that layer's
+// position in the implementation's own chain, and a reported command must be the command of THAT layer.
+func phantomVerdict(ops []Op, exs []*listEx, files []string) (key, detail string, npk int) {
+	b, err := build(ops)
+	if err != nil {
+		return "", "unloadable: " + err.Error(), -1
+	}
+	defer b.img.CleanUp()
+	cls, err := b.img.ChainLayers()
+	if err != nil || len(cls) == 0 {
+		return "", "no chain layers", -1
+	}
+	// true command per diff id
+	cmdOf := map[string]string{}
+	for i, lo := range b.layerOf {
+		if lo >= 0 {
+			cmdOf[strings.TrimPrefix(b.light.DiffID(lo), "sha256:")] = b.hist[i].CreatedBy
+		}
+	}
+	present := make([]map[pkgKey]bool, len(cls))
+	for i, cl := range cls {
+		present[i] = map[pkgKey]bool{}
+		for _, f := range files {
+			fh, err := cl.FS().Open(f)
+			if err != nil {
+				continue
+			}
+			if _, serr := fh.Stat(); serr == nil {
+				data, _ := io.ReadAll(fh)
+				for _, e := range exs {
+					for _, p := range parseList(data, f) {
+						present[i][pkgKey{e.ToPURL(p).String(), f}] = true
+					}
+				}
+			}
+			fh.Close()
+		}
+	}
+	var fexs []filesystem.Extractor
+	for _, e := range exs {
+		fexs = append(fexs, e)
+	}
+	var res *scalibr.ScanResult
+	p, stack := ev.Recover(func() {
+		res, err = scalibr.New().ScanContainer(context.Background(), b.img, &scalibr.ScanConfig{FilesystemExtractors: fexs, Capabilities: &plugin.Capabilities{}})
+	})
+	if p != nil {
+		return "panic:" + ev.PanicSite(stack), fmt.Sprint(p), 0
+	}
+	if err != nil {
+		return "scan-container-error", err.Error(), 0
+	}
+	n := len(cls)
+	for _, pk := range res.Inventory.Packages {
+		k := pkgKey{pk.Extractor.ToPURL(pk).String(), pk.Locations[0]}
+		L := n - 1
+		for L > 0 && present[L-1][k] {
+			L--
+		}
+		ld := pk.LayerDetails
+		if ld == nil {
+			return "no-layer-details", fmt.Sprintf("%v has no LayerDetails", k), len(res.Inventory.Packages)
+		}
+		wantDiff := strings.TrimPrefix(cls[L].Layer().DiffID().String(), "sha256:")
+		if ld.Index != L {
+			return "inconsistent-history:wrong-layer-index", fmt.Sprintf("%v attributed to chain layer %d, introduced by %d", k, ld.Index, L), len(res.Inventory.Packages)
+		}
+		if ld.DiffID != wantDiff {
+			return "inconsistent-history:wrong-diff-id", fmt.Sprintf("%v: diff id %q want %q", k, ld.DiffID, wantDiff), len(res.Inventory.Packages)
+		}
+		if ld.Command != "" && ld.Command != cmdOf[wantDiff] {
+			return "inconsistent-history:command-of-another-layer", fmt.Sprintf("%v introduced by the layer with diff id %.12s (command %q) is reported with command %q", k, wantDiff, cmdOf[wantDiff], ld.Command), len(res.Inventory.Packages)
+		}
+	}
+	return "", "", len(res.Inventory.Packages)
+}
+
+// phantomPhase: every one-file history of depth <= maxDepth (no empty entries) with one surplus
+// unflagged history entry inserted at every position.
+func phantomPhase(r *ev.Run, maxDepth int, exs []*listEx) bool {
+	files := []string{"etc/f.list"}
+	var ops []Op
+	for _, o := range alphabet(files, []string{"A 1", "B 2"}) {
+		if o.Kind != "empty" {
+			ops = append(ops, o)
+		}
+	}
+	var hists [][]Op
+	var rec func(cur []Op)
+	rec = func(cur []Op) {
+		if len(cur) > 0 {
+			for pos := 0; pos <= len(cur); pos++ {
+				h := append(append(append([]Op{}, cur[:pos]...), Op{Kind: "phantom"}), cur[pos:]...)
+				hists = append(hists, h)
+			}
+		}
+		if len(cur) == maxDepth {
+			return
+		}
+		for _, o := range ops {
+			rec(append(append([]Op{}, cur...), o))
+		}
+	}
+	rec(nil)
+	done := r.ParallelFor(len(hists), func(i int) {
+		key, detail, npk := phantomVerdict(hists[i], exs, files)
+		r.Trans.Add(1)
+		if npk < 0 {
+			return
+		}
+		r.Traces.Add(1)
+		r.Evals.Add(1)
+		r.States.Add(1)
+		if npk > 0 {
+			r.Nontrivial.Add(1)
+		}
+		if key != "" {
+			r.Violation(key, fmt.Sprintf("[inconsistent-history] history %s: %s", histStr(hists[i]), detail), map[string]any{"phase": "inconsistent-history", "history": hists[i]})
+		}
+	})
+	return done == len(hists)
 }
